@@ -547,6 +547,13 @@ func (se *SessionExecutor) handleSetAutoCommit(autocommit bool) (err error) {
 
 	// set autocommit = 1
 	if autocommit {
+		if se.status&mysql.ServerStatusAutocommit > 0 {
+			// autocommit is on already: MySQL changes nothing, in particular a transaction opened
+			// with BEGIN stays open (only the switch from 0 to 1 commits). Treating it as the end of
+			// the transaction returned its connections to their pools, where the open transaction
+			// was rolled back, while the client went on and committed on other connections.
+			return nil
+		}
 		se.status |= mysql.ServerStatusAutocommit
 		if se.status&mysql.ServerStatusInTrans > 0 {
 			se.status &= ^mysql.ServerStatusInTrans
